@@ -300,6 +300,8 @@ func execOp(acc *accounting.Accounting, st *stub, op jop) (res int) {
 	return resOk
 }
 
+var goName = map[string]string{"res": "Reserve", "cre": "Credit", "deb": "Debit", "not": "NotifyPayment", "avail": "env", "settr": "env", "fail": "env"}
+
 func hasPeer(op jop) bool { return op.K == "res" || op.K == "cre" || op.K == "deb" || op.K == "not" }
 
 // ---------------------------------------------------------------- controlled world
@@ -412,7 +414,7 @@ func (w *world) await(t *thread, mayBlock bool) int {
 			return stBlk
 		}
 		w.broken = true
-		w.violate("hang:"+t.cur.K, fmt.Sprintf("thread %d made no progress in %v on %+v with nothing holding it", t.id, d, t.cur))
+		w.violate("hang:"+goName[t.cur.K], fmt.Sprintf("thread %d made no progress in %v on %+v with nothing holding it", t.id, d, t.cur))
 		return stBlk
 	}
 }
@@ -435,7 +437,7 @@ func (w *world) onGate(t *thread, e event) {
 		// inside the region of the operation: the peer lock must be held
 		w.run.OracleChecked(1)
 		if !w.lockHeld(e.peer) {
-			w.violate("lock:not-held-in-"+t.cur.K+"-region", fmt.Sprintf("thread %d is inside %s(peer %d) at gate %d and the peer lock is free", t.id, t.cur.K, e.peer, e.gate))
+			w.violate("lock:not-held-in-"+goName[t.cur.K]+"-region", fmt.Sprintf("thread %d is inside %s(peer %d) at gate %d and the peer lock is free", t.id, t.cur.K, e.peer, e.gate))
 		}
 		t.holding = e.peer
 	}
@@ -607,7 +609,7 @@ func (w *world) goThread(t *thread) {
 	if lockWait {
 		w.run.OracleChecked(1)
 		if st != stBlk {
-			w.violate("lock:"+t.cur.K+"-ran-while-peer-lock-held", fmt.Sprintf("thread %d got through %s(peer %d) (status %d) while another goroutine was parked holding that peer's lock", t.id, t.cur.K, t.cur.P, st))
+			w.violate("lock:"+goName[t.cur.K]+"-ran-while-peer-lock-held", fmt.Sprintf("thread %d got through %s(peer %d) (status %d) while another goroutine was parked holding that peer's lock", t.id, t.cur.K, t.cur.P, st))
 		}
 	}
 	if st == stBlk {
@@ -1350,7 +1352,7 @@ func finishRace(run *hx.Run, prefix string) {
 	}
 	reps := raceReports(prefix)
 	run.OracleChecked(1)
-	var sigs []string
+	sigs := []string{}
 	for sig, blk := range reps {
 		sigs = append(sigs, sig)
 		run.Violate(hx.Violation{Sig: sig, Detail: "Go race detector report:\n" + blk, Case: nil})
